@@ -16,6 +16,7 @@ import Kap.Proofs.C11Defs
 import Kap.Proofs.C11TransLife
 import Kap.Proofs.C11Func
 import Kap.Proofs.C11Order
+import Kap.Proofs.C11Sort
 namespace Kap.Props.C11
 open Kap.C11 Kap.C11.Spec
 
@@ -202,6 +203,45 @@ theorem sum_order_independent_of_commuting_add (k : Kind) (xs ys : List QP)
 
 example : StrictTotalOn (([⟨1, .int 5, [], []⟩, ⟨2, .int (-3), [], []⟩] : List QP).map (·.val)) :=
   strictTotalOn_int _ (by intro v hv; simp at hv; rcases hv with rfl | rfl <;> exact ⟨_, rfl⟩)
+
+/-! ### The sorted order behind median, mode, percentile, top, bottom; distinct -/
+
+/-- The model's sort returns a permutation of its input, for every comparator … -/
+theorem sort_is_permutation {α : Type} (lt : α → α → Bool) (l : List α) : (sortBy lt l).Perm l :=
+  sortBy_perm lt l
+
+/-- … that is sorted whenever the comparator is asymmetric and negatively transitive on the elements at hand
+(so every correct sort yields the same VALUES in the same order; Go's `sort.Sort` is trusted to be one). -/
+theorem sort_is_sorted {α : Type} (S : α → Prop) (lt : α → α → Bool) (h : WeakOrderOn S lt) (l : List α)
+    (hl : ∀ y ∈ l, S y) : (sortBy lt l).Pairwise (leOf lt) :=
+  sortBy_sorted S lt h l hl
+
+/-- **median / percentile / mode read THE ascending order**: for int64 values the value-sorted list is the
+batch's own points in non-decreasing value order; `percentile` takes the element of rank
+`⌊n·p/100 + 0.5⌋` of it, `median` the middle one(s). -/
+theorem sorted_by_value_int (xs : List QP) (h : AllInt xs) :
+    (sortedByVal xs).Perm xs ∧ (sortedByVal xs).Pairwise (fun a b => intVal a ≤ intVal b) :=
+  sortedByVal_int xs h
+
+/-- **top n / bottom n are the n best**: the emitted points followed by the others form a best-first
+arrangement of the whole batch (no later point outranks an earlier one), and exactly `min n |batch|` points are
+emitted. Ranking: larger (top) / smaller (bottom) value first, earlier time first among equal values. -/
+theorem top_is_the_n_best (xs : List QP) (h : AllInt xs) (n : Nat) :
+    ∃ rest, (topOf topLt n xs ++ rest).Perm xs ∧ (topOf topLt n xs).length = min n xs.length ∧
+      (topOf topLt n xs ++ rest).Pairwise (fun a b => topLt a b = false) :=
+  topOf_int topLt weakOrder_top_int xs h n
+
+theorem bottom_is_the_n_best (xs : List QP) (h : AllInt xs) (n : Nat) :
+    ∃ rest, (topOf bottomLt n xs ++ rest).Perm xs ∧ (topOf bottomLt n xs).length = min n xs.length ∧
+      (topOf bottomLt n xs ++ rest).Pairwise (fun a b => bottomLt a b = false) :=
+  topOf_int bottomLt weakOrder_bottom_int xs h n
+
+/-- **distinct emits every value of the batch exactly once** (any kind). -/
+theorem distinct_every_value_once (xs : List QP) :
+    ((distinctOf xs).map (·.val)).Nodup ∧ ∀ x ∈ xs, x.val ∈ (distinctOf xs).map (·.val) :=
+  distinctOf_values xs
+
+example : (topOf topLt 2 [⟨1, .int 1, [], []⟩, ⟨2, .int 5, [], []⟩, ⟨3, .int 5, [], []⟩, ⟨4, .int 3, [], []⟩]).map (·.time) = [2, 3] := by decide
 
 /-! ### The incremental reducer behind count, sum, min, max, first, last -/
 
